@@ -18,5 +18,7 @@ Hash(ix) == Len(ix) + (IF Len(ix) > 0 THEN ix[1] * 3 + ix[Len(ix)] ELSE 0)
 Emit == c = 99999 \/ \A ix \in Seqs : Hash(ix) % NChunks = c =>
            LET ls == [i \in 1..Len(ix) |-> LinesA[ix[i]]] IN
            /\ (QuotedIsLiteral(ls) /\ DashOnlyTabs(ls)) \/ Print(<<"INSANE", ix>>, FALSE)
-           /\ \A f \in Forms : PrintT(<<"DOC", ToJson([form |-> f, lines |-> ls, body |-> Body(f, ls), term |-> Terminated(f, ls), after |-> AfterLines(f, ls)])>>)
+           /\ \A f \in Forms : \A tail \in {<<>>, <<<<"E">>>>, <<<<"TAB", "E">>>>} :       \* as drawn, and closed by a delimiter line (plain / behind a tab)
+                  LET l2 == ls \o tail IN
+                  PrintT(<<"DOC", ToJson([form |-> f, lines |-> l2, body |-> Body(f, l2), term |-> Terminated(f, l2), after |-> AfterLines(f, l2)])>>)
 =============================================================================
